@@ -79,34 +79,42 @@ class C01(Prop):
         bucket = dc.kbucket(ev.k_est)
         ctx.count('kbucket=%s' % bucket)
         tol = tol_for(self.table, method, n, bucket)
+        ctx.count('cell|%s|%d|%s' % (method, n, bucket))
         nontrivial = False
         for j, xv in enumerate(case['x']):
             lib = complex(ev.vals[j]) if cplx else ev.vals[j]
             exact = ev.exact_f[j]
-            S, S1 = ev.S[j], ev.S1[j]
+            U, S1 = ev.U[j], ev.S1[j]
             if not np.isfinite(lib):
                 raise Violation('finite', 'result is %r at x=%r (every sample point is inside the certified '
                                 'domain)' % (lib, xv), method=method, n=n, order=order)
             if not cplx and np.iscomplexobj(ev.vals) and ev.vals[j].imag != 0:
                 raise Violation('real', 'complex result for a real function', lib=ev.vals[j])
-            if S is None or S1 is None or not math.isfinite(S) or not math.isfinite(S1):
+            if U is None or S1 is None or not math.isfinite(S1):
                 ctx.count('scale unavailable (overflow)')
                 continue
+            U = U[0]
             err = abs(lib - exact)
             floor = FLOOR * dc.EPS * (abs(exact) + abs(xv) * S1)
             excess = max(err - floor, 0.0)
-            ratio = excess / S if S > 0 else (0.0 if excess == 0 else math.inf)
-            ctx.track('err/S|%s|%d|%s' % (method, n, bucket), ratio,
+            ratio = excess / U if U > 0 else (0.0 if excess == 0 else math.inf)
+            ctx.track('err/U|%s|%d|%s' % (method, n, bucket), ratio,
                       dict(f=exprs.show(case['tree']), x=xv, order=order, step=case['step'], lib=lib,
-                           exact=exact, S=S, wrap=case.get('wrap')))
+                           exact=exact, U=U, wrap=case.get('wrap')))
+            if CALIBRATE and method == 'multicomplex':
+                tag = 'big' if ratio > 10 else 'ok'
+                for o in sorted(exprs.ops(case['tree'])):
+                    ctx.count('mc%d-%s|%s|%s' % (n, tag, o, case['step']['kind']))
+            if CALIBRATE and ratio > 0:
+                ctx.record('log10(err/U)|%s|%d' % (method, n), math.log10(ratio) if ratio < 1e300 else 300.0)
             if tol is None or CALIBRATE:
                 continue
             if ratio > tol:
-                raise Violation('envelope', '%s n=%d order=%d: lib=%r exact=%r |err|=%.3g > tol(%g)*S_n(%.3g) '
-                                '+ floor(%.3g) at x=%r, f=%s' % (method, n, order, lib, exact, err, tol, S,
+                raise Violation('envelope', '%s n=%d order=%d: lib=%r exact=%r |err|=%.3g > tol(%g)*U(%.3g) '
+                                '+ floor(%.3g) at x=%r, f=%s' % (method, n, order, lib, exact, err, tol, U,
                                                                  floor, xv, exprs.show(case['tree'])),
                                 method=method, n=n, order=order, ratio=ratio, bucket=bucket)
-            if tol * S + floor <= abs(exact) / 2:
+            if tol * U + floor <= abs(exact) / 2:
                 nontrivial = True
         if tol is None:
             ctx.count('weak cell (no envelope): %s|%d|%s' % (method, n, bucket))
